@@ -20,22 +20,34 @@ if not os.path.isdir(REPO):
     sh("git -C /repo worktree add --detach %s HEAD" % REPO)
 assert sh("git -C %s status --porcelain --untracked-files=no" % REPO)[1].strip() == "", "scratch worktree not clean"
 assert sh("git -C %s rev-parse HEAD" % REPO)[1] == sh("git -C /repo rev-parse HEAD")[1], "scratch worktree is not at /repo's HEAD"
-missed = []
+# BASE_PATCH=<refactors/.../patch.diff>: every seeded change is applied ON TOP of that (behaviour-preserving) refactoring, where it
+# still applies - e.g. the tree without any hook (R8): detection must not depend on the instrumentation
+BASE = os.environ.get("BASE_PATCH")
+if BASE:
+    rc, out = sh("git -C %s apply %s" % (REPO, BASE))
+    assert rc == 0, out
+missed, skipped = [], []
 for sid in ids:
     d = "/verif/seeded/" + sid
     meta = json.load(open(d + "/meta.json"))
     prop = meta["breaks_property"]
     rc, out = sh("git -C %s apply %s/patch.diff" % (REPO, d))
     if rc != 0:
-        print("%-50s patch does not apply: %s" % (sid, out[:100]))
+        print("%-50s patch does not apply%s" % (sid, " on top of the base patch" if BASE else ": " + out[:100]))
+        skipped.append(sid)
         continue
     try:
         r, o = sh("cd /verif && VERIF_REPO=%s PYTHONPATH=%s ./check %s --tier quick" % (REPO, REPO, prop))
     finally:
-        sh("git -C %s checkout -- ." % REPO)
+        if BASE:
+            sh("git -C %s apply -R %s/patch.diff" % (REPO, d))
+        else:
+            sh("git -C %s checkout -- ." % REPO)
     nv = sum(1 for l in o.splitlines() if l.startswith("VIOLATION"))
     print("%-50s %s exit=%d violations=%d" % (sid, prop, r, nv), flush=True)
     if r != 1 or nv == 0:
         missed.append(sid)
+if BASE:
+    sh("git -C %s checkout -- . ; git -C %s clean -fdq -- pytorch_wavelets" % (REPO, REPO))
 sh("rm -rf /verif/replays; git -C /verif checkout -- evidence")
-print("MISSED:", missed)
+print("MISSED:", missed, "NOT APPLICABLE ON THE BASE:", len(skipped))
